@@ -37,3 +37,18 @@ Theorem cowat_radicand_nonneg_in_range : forall t p : R,
 Proof. exact zp_in_range. Qed.
 Print Assumptions cowat_radicand_nonneg_in_range.
 
+
+(** saturation TEMPERATURES: any temperatures at which the two saturation lines take the same
+    pressure (what tsat of either module returns, whatever root finder it uses) differ by < 0.18 K.
+    Corollary of the 0.2 % bound above and of d ln(sat67)/dt >= 0.0115 / K (interval arithmetic) *)
+Theorem tsat67_vs_tsat97 : forall t67 t97 p : R,
+  Q2R d001 <= t67 <= Q2R Tc1_C_Q -> Q2R d001 <= t97 <= Q2R i97_tcritical_Q ->
+  sat67 t67 = p -> sat97 t97 = p -> Rabs (t67 - t97) <= 18 / 100.
+Proof. exact tsat_agree. Qed.
+Print Assumptions tsat67_vs_tsat97.
+
+(** the B23 boundary curves of the two modules differ by < 0.05 % between 350 and 590 degC *)
+Theorem b23p67_vs_b23p97 : forall t : R, 350 <= t <= 590 ->
+  0 < b23p97 t /\ Rabs (b23p67 t - b23p97 t) <= 5 / 10000 * b23p97 t.
+Proof. exact b23_agree_num. Qed.
+Print Assumptions b23p67_vs_b23p97.
